@@ -432,6 +432,11 @@ class World:
         src = self.pick(op["src"])
         if src is None:
             return
+        if not src["facts"]["feats"]:
+            # (e.g. the join of measurements without a common feature: no data that metadata could contradict; without
+            #  an event count the checker cannot even determine a size and raises - observed, DESIGN section 15)
+            ctx.count("corruption_source_without_features")
+            return
         name = self.newname("x")
         shutil.copyfile(self.dir / src["name"], self.dir / name)
         if seeds.rng(op["dseed"], "check-before").random() < 0.4:
